@@ -19,17 +19,25 @@ ASSUMPTIONS = [
     "theorems cover the modelled entry points only (listed in Properties/C04*.v); net/mail, encoding/xml, archive/zip, tar, gzip "
     "decoders and the three resolvers' totality are exercised by the malformed stream with recover and watchdog as supporting "
     "evidence, not proved",
+    "schema.ParseResolve (Properties/C04_schema.v: C04_parse_resolve_total, C04_parse_resolve_sources_bound, "
+    "C04_parse_resolve_schema_total): the theorems hold for every strings.TrimSpace and every deptest.ParseString (both are "
+    "parameters of the model: any function, any accept/refuse answer); Graph.Canon, called last by ParseResolve, is outside these "
+    "statements (its model belongs to C13) and enters only the correspondence parseresolve_model, where the model is instantiated "
+    "with the Unicode TrimSpace model of Semver/Pep440Parse.v and the deptest.ParseString model of C19 (non-ASCII dep-type "
+    "prefixes whose acceptance decides the answer are skipped and counted)",
     "stack depth: recursion-depth bounds of the models are theorems; that Go's stack accommodates them is observed, not proved",
 ]
 MANIFEST = dict(
     category="proof",
     text=("Totality theorems (no Panic outcome, fuel suffices) for the modelled entry points — SemVer-family Parse and the further "
-          "parsers listed in Properties/C04*.v — over ALL byte strings, with the operator/byte tables regenerated from the source so "
+          "parsers listed in Properties/C04*.v — over ALL byte strings (among them the graph-text parser schema.ParseResolve: C04_parse_resolve_total, with the invariant "
+          "C04_parse_resolve_sources_bound that a validated row's depth is at most its index, which keeps the per-level scratch slice "
+          "indexed in range; model tied to the code by the correspondence parseresolve_model on whole canonical graphs), with the operator/byte tables regenerated from the source so "
           "that an index past a table's real length is a failed obligation; every exported entry point (semver, pypi, maven, schema, "
           "the three resolvers) is additionally driven with malformed inputs under recover and a watchdog, and a panic or hang is "
           "reported with the input."),
     note=("Partial: standard-library decoders (net/mail, encoding/xml, archive/*), resolver totality and physical stack limits are "
-          "observed, not proved. Trusted: Coq kernel, gotables, extraction+driver, Go harness, generators."),
+          "observed, not proved; for schema.ParseResolve deptest.ParseString and strings.TrimSpace are parameters and Graph.Canon is left to C13. Trusted: Coq kernel, gotables, extraction+driver, Go harness, generators."),
     technique="Rocq totality theorems over models with explicit Panic outcomes + differential classification + malformed-input search",
     design="8 C04")
 
